@@ -334,6 +334,103 @@ pub fn burst(output: &str, n: usize, cancelable: bool, cross: bool) -> std::io::
 }
 
 
+/// Several full queues in one sweep: a root started on the thread whose queue was registered LAST and finished on the
+/// thread whose queue was registered FIRST, four threads in between with `n` finished spans each, all queued before a
+/// single flush().  Everything is delivered by that flush (C01) and the collector keeps nothing afterwards (C08): a
+/// sweep takes every queue, however much there is in the others.
+pub fn burst_multi(output: &str, n: usize) -> std::io::Result<i32> {
+    use fastrace::prelude::*;
+    use std::sync::mpsc::channel;
+    fastrace::set_reporter(rt::CapturingReporter, fastrace::collector::Config::default().report_interval(Duration::from_secs(3600)));
+    shared().free.store(true, Ordering::SeqCst);
+    std::thread::sleep(Duration::from_millis(300));
+    let foreign: Vec<usize> = verif::collector_stats().active.iter().map(|a| rt::cid_out(a.collect_id)).collect();
+    let before = shared().nrecs.load(Ordering::SeqCst);
+    let (hold_tx, hold_rx) = channel::<()>();
+    let hold_rx = std::sync::Arc::new(std::sync::Mutex::new(hold_rx));
+    let (reg_tx, reg_rx) = channel::<()>();
+    let (span_tx, span_rx) = channel::<Span>();
+    let (fin_tx, fin_rx) = channel::<()>();
+    let mut joins = Vec::new();
+    // registered first: finishes the root it is handed
+    {
+        let reg_tx = reg_tx.clone();
+        let hold = hold_rx.clone();
+        joins.push(std::thread::spawn(move || {
+            verif::touch_sender();
+            let _ = reg_tx.send(());
+            if let Ok(root) = span_rx.recv() {
+                drop(root);
+            }
+            let _ = fin_tx.send(());
+            let _ = hold.lock().map(|h| h.recv_timeout(Duration::from_secs(60)));
+        }));
+    }
+    let _ = reg_rx.recv_timeout(Duration::from_secs(10));
+    let (go_tx, go_rx) = channel::<()>();
+    let go_rx = std::sync::Arc::new(std::sync::Mutex::new(go_rx));
+    let (busy_tx, busy_rx) = channel::<()>();
+    for b in 0..4u128 {
+        let reg_tx = reg_tx.clone();
+        let busy_tx = busy_tx.clone();
+        let go = go_rx.clone();
+        let hold = hold_rx.clone();
+        joins.push(std::thread::spawn(move || {
+            verif::touch_sender();
+            let _ = reg_tx.send(());
+            let _ = go.lock().map(|g| g.recv_timeout(Duration::from_secs(30)));
+            let r = Span::root("busy-root", SpanContext::new(fastrace::collector::TraceId(0xb5000 + b), fastrace::collector::SpanId(1)));
+            for _ in 0..n {
+                let _c = Span::enter_with_parent("busy-child", &r);
+            }
+            drop(r);
+            let _ = busy_tx.send(());
+            let _ = hold.lock().map(|h| h.recv_timeout(Duration::from_secs(60)));
+        }));
+        let _ = reg_rx.recv_timeout(Duration::from_secs(10));
+    }
+    // registered last: starts the root
+    {
+        let reg_tx = reg_tx.clone();
+        let hold = hold_rx.clone();
+        joins.push(std::thread::spawn(move || {
+            verif::touch_sender();
+            let _ = reg_tx.send(());
+            let root = Span::root("cross-root", SpanContext::new(fastrace::collector::TraceId(0xb5fff), fastrace::collector::SpanId(1)));
+            let _ = span_tx.send(root);
+            let _ = hold.lock().map(|h| h.recv_timeout(Duration::from_secs(60)));
+        }));
+    }
+    let _ = reg_rx.recv_timeout(Duration::from_secs(10));
+    let _ = fin_rx.recv_timeout(Duration::from_secs(10));
+    for _ in 0..4 {
+        let _ = go_tx.send(());
+    }
+    for _ in 0..4 {
+        let _ = busy_rx.recv_timeout(Duration::from_secs(60));
+    }
+    fastrace::flush();
+    let by_flush = shared().nrecs.load(Ordering::SeqCst) - before;
+    fastrace::flush();
+    fastrace::flush();
+    let later = shared().nrecs.load(Ordering::SeqCst) - before;
+    let st = verif::collector_stats();
+    drop(hold_tx);
+    for j in joins {
+        let _ = j.join();
+    }
+    let mut out = std::io::BufWriter::new(std::fs::File::create(output)?);
+    writeln!(out, "{}", json!({"ev":"reset","run":0,"cfg":{"cancelable":false,"enabled":true,"ready":true,"queue":10240,"stack":4096,"ring":10240,"foreign":foreign,"free":true}}))?;
+    writeln!(out, "{}", json!({"ev":"burst","finished":1 + 4 * (n + 1),"by_flush":by_flush,"later":later,"cross":true}))?;
+    writeln!(out, "{}", json!({"ev":"stats",
+        "active": st.active.iter().map(|a| rt::cid_out(a.collect_id)).filter(|c| !foreign.contains(c)).collect::<Vec<_>>(),
+        "sets": st.active.iter().map(|a| a.buffered_sets).sum::<usize>(), "dang": st.active.iter().map(|a| a.danglings).sum::<usize>(),
+        "deadrx": 0, "heap": 0}))?;
+    writeln!(out, "{}", json!({"ev":"end","run":0,"misses":0,"hung":false}))?;
+    out.flush()?;
+    Ok(0)
+}
+
 /// C09 on the built-in capacities: one thread starts and finishes `n` traces with no collector cycle in between
 /// (ring of 10240 slots: from about the 3400th trace on the queue is full, start and finish signals are parked
 /// by the thousand, span sets are refused).  Every call must return (watchdog), and once the queue has drained a
